@@ -284,6 +284,26 @@ def run_polar(ctx, insts, override=False):
     return lib.run_tasks(tasks, timeout=ctx.pick(90, 240))
 
 
+def raw_instance(inst):
+    """the generator's description of an instance (JSON), enough to re-run it with --replay"""
+    keys = ("family", "kind", "cfs", "program", "goals", "probabilistic", "oracle")
+    return {k: inst[k] for k in keys if k in inst}
+
+
+def load_replay(ctx, insts):
+    if not ctx.replay:
+        return insts
+    import json
+    with open(ctx.replay) as f:
+        rp = json.load(f)
+    inst = rp["instance"]
+    if "cfs" in inst:
+        inst["cfs"] = [tuple(x) for x in inst["cfs"]]
+    if "oracle" in inst:
+        inst["oracle"] = tuple(inst["oracle"])
+    return [inst]
+
+
 def label_of(inst):
     return inst.get("program") or inst["cfs"]
 
@@ -370,7 +390,7 @@ def run(ctx):
         "that the closed forms equal the loop's goal quantities is C04/C01's theorem; here they are additionally compared with the generator's exact sequences for n <= 40 on every program",
         "closed-form tuples and programs are sampled; each accepted basis element is a theorem for ALL n",
     ]
-    insts = generate(ctx)
+    insts = load_replay(ctx, generate(ctx))
     results = run_polar(ctx, insts)
     errs, hist, stat = {}, {}, {}
     todo = prepare_all(insts, results, errs)
@@ -448,7 +468,7 @@ def run(ctx):
             if v["bad"] is None:
                 continue
             sig = KNOWN_VIA_C16 if causal.get(id(inst)) else f"false-invariant:{label}:{v['pstr']}"
-            new = ctx.violation(sig, {"input": label, "goals": inst.get("goals") or inst["names"], "closed_forms": inst["exprs"],
+            new = ctx.violation(sig, {"input": label, "instance": raw_instance(inst), "goals": inst.get("goals") or inst["names"], "closed_forms": inst["exprs"],
                                       "invariant": v["pstr"], "basis": inst["first_basis_str"], "n": v["bad"][0],
                                       "value_at_n": str(exppoly.field_to_complex(v["bad"][1], inst["gens"])),
                                       "exp_bases": inst["exp_bases"], "validator_accepted": v["accepted"],
